@@ -311,24 +311,43 @@ func stressOne(rng *rand.Rand, rootDir string) (evs []map[string]any, shape stri
 	close(start)
 	pwg.Wait()
 	// all producers have returned: wait until every consumer is finished or blocked
+	// every consumer is finished or inside a Fetch call (nobody between two calls)
+	noneBetween := func() bool {
+		for _, p := range cons {
+			if !p.finished.Load() && !p.inFetch.Load() {
+				return false
+			}
+		}
+		return true
+	}
+	progress := func() (inFlight int, rets int64) {
+		for _, p := range cons {
+			if p.inFetch.Load() {
+				inFlight++
+			}
+			rets += p.rets.Load()
+		}
+		return
+	}
+	// waitDone returns the fetchers that are blocked for good.  The answer is taken only from a
+	// stable situation: nobody between two calls before and after the snapshot, no Fetch returned
+	// in between, and the in-flight calls are exactly the blocked ones.
 	waitDone := func(cap time.Duration) ([]*wproc, bool) {
 		deadline := time.Now().Add(cap)
 		for {
-			blocked, ok := settle(cons, cap)
-			if !ok {
-				return blocked, false
-			}
-			all := true
-			for _, p := range cons {
-				if !p.finished.Load() && !p.inFetch.Load() {
-					all = false // between two calls
+			if noneBetween() {
+				_, r1 := progress()
+				blocked, ok := settle(cons, cap)
+				if !ok {
+					return blocked, false
+				}
+				n2, r2 := progress()
+				if noneBetween() && r1 == r2 && n2 == len(blocked) {
+					return blocked, true
 				}
 			}
-			if all {
-				return blocked, true
-			}
 			if time.Now().After(deadline) {
-				return blocked, false
+				return nil, false
 			}
 			runtime.Gosched()
 		}
